@@ -6,6 +6,7 @@ import LncModel.Queue
 import LncModel.TraceCheck
 import LncModel.Chunk
 import LncModel.Endpoint
+import LncModel.Timeout
 /-
   Line-protocol driver: one operation per input line, one canonical result per
   output line.  Imports model files only (no Mathlib, no proofs) so it links as
@@ -13,6 +14,7 @@ import LncModel.Endpoint
   the check script diffs the two output streams.
 -/
 open Lnc Lnc.Gbn Lnc.Mailbox
+open Lnc.Gbn.Timeout (TM Kind)
 
 def showBool (b : Bool) : String := if b then "1" else "0"
 
@@ -144,6 +146,17 @@ def pureStep (toks : List String) : String :=
 structure DState where
   dirs : Array Dir := #[Dir.init 1, Dir.init 1]
   failed : Bool := false
+  tm : TM := TM.new false 1000000000 1000000000 5 100
+  pct : Float32 := 0.5
+
+def parseKind (s : String) : Option Kind :=
+  match s with
+  | "syn" => some .syn | "synack" => some .synack | "data" => some .data
+  | "ack" => some .ack | "nack" => some .nack | "fin" => some .fin | _ => none
+
+def showTM (st : DState) : String :=
+  let inc := Lnc.Gbn.Timeout.incF32 st.pct
+  s!"{st.tm.getResend inc} {st.tm.getHandshake inc} {st.tm.resendB.boostCount} {st.tm.handshakeB.boostCount} {st.tm.responseCounter} {showBool st.tm.hasSetDynamic}"
 
 def parseReaction (s : String) : Option Reaction :=
   match s.splitOn ":" with
@@ -192,6 +205,24 @@ def step (st : DState) (toks : List String) : DState × String :=
         if ms.isPrefixOf model then .ok d
         else .error s!"Recv results ({ms.length}) are not a prefix of the model's delivered messages ({model.length})"
     | _, _ => (st, "bad-op")
+  | ["tm.new", static, resend, hs, mult, freq, pctBits] =>
+    match parseBool static, resend.toInt?, hs.toInt?, mult.toInt?, freq.toNat?, pctBits.toNat? with
+    | some st', some r, some h, some m, some f, some pb =>
+      let st2 := { st with tm := TM.new st' r h m f, pct := Float32.ofBits (UInt32.ofNat pb) }
+      (st2, showTM st2)
+    | _, _, _, _, _, _ => (st, "bad-op")
+  | ["tm.sent", k, seq, resent, t] =>
+    match parseKind k, seq.toNat?, parseBool resent, t.toInt? with
+    | some k, some seq, some r, some t =>
+      let st2 := { st with tm := st.tm.sent k seq r t }
+      (st2, showTM st2)
+    | _, _, _, _ => (st, "bad-op")
+  | ["tm.recv", k, seq, t] =>
+    match parseKind k, seq.toNat?, t.toInt? with
+    | some k, some seq, some t =>
+      let st2 := { st with tm := st.tm.received k seq t }
+      (st2, showTM st2)
+    | _, _, _ => (st, "bad-op")
   | _ => (st, pureStep toks)
 
 partial def loop (hin hout : IO.FS.Stream) (st : DState) : IO Unit := do
